@@ -55,6 +55,12 @@ _seq = [0]
 UNIT_SECONDS = {'seconds': 1, 'minutes': 60, 'hours': 3600, 'days': 86400, 'weeks': 7 * 86400}
 
 
+def _rel_seconds(t):
+    if 'multi' in t:
+        return sum(n * UNIT_SECONDS[u] for u, n in t['multi'].items())
+    return t['n'] * UNIT_SECONDS[t['unit']]
+
+
 def gen(t, tier):
     z = t.pick([2, 3])
     n = 1 << z
@@ -97,7 +103,11 @@ def gen(t, tier):
                                              3 * 86400, 8 * 86400, 61 * 86400])])
         elif k == 'thr':
             kind = t.weighted([('none', 1), ('rel', 4), ('time', 3), ('mtime', 2)])
-            if kind == 'rel':
+            if kind == 'rel' and t.chance(0.3):
+                # several units in one rule, as in the documentation (weeks: 1, days: 7, hours: 4, minutes: 15)
+                units = sorted(set(t.pick(['seconds', 'minutes', 'hours', 'days', 'weeks']) for _ in range(t.randint(2, 3))))
+                sc['ops'].append(['thr', {'kind': 'rel', 'multi': dict((u_, t.pick([1, 2, 5, 30])) for u_ in units)}])
+            elif kind == 'rel':
                 sc['ops'].append(['thr', {'kind': 'rel', 'unit': t.pick(['seconds', 'seconds', 'minutes', 'hours', 'days', 'weeks']),
                                           'n': t.pick([0, 1, 2, 5, 60])}])
             elif kind == 'time':
@@ -357,7 +367,7 @@ def _run(sc, tape):
         if t is None or t['kind'] == 'none':
             return None
         if t['kind'] == 'rel':
-            secs = t['n'] * UNIT_SECONDS[t['unit']]
+            secs = _rel_seconds(t)
             return float(int(clock.now) - secs), float(int(clock.now + 0.01) - secs)
         if t['kind'] == 'time':
             return float(t['abs']), float(t['abs'])
@@ -403,7 +413,7 @@ def _run(sc, tape):
                     else:
                         tm._refresh_before = {'time': _iso(t['abs'])}
                 elif t['kind'] == 'rel':
-                    tm._refresh_before = {t['unit']: t['n']}
+                    tm._refresh_before = dict(t['multi']) if 'multi' in t else {t['unit']: t['n']}
                 elif t['kind'] == 'mtime':
                     if not w.fs.exists(TRIGGER):
                         w.fs.mkdir('/simfs/trigger') if not w.fs.exists('/simfs/trigger') else None
@@ -596,7 +606,7 @@ def _run(sc, tape):
         if thr == 'error' or thr2 == 'error' or upfail[0]:
             return
         t = state['thr']
-        short_rel = t is not None and t['kind'] == 'rel' and t['n'] * UNIT_SECONDS[t['unit']] < 5
+        short_rel = t is not None and t['kind'] == 'rel' and _rel_seconds(t) < 5
         wanted = set(c for r in reqs for c in r)
         mx_, my_ = sc['meta_size']
 
